@@ -8,7 +8,7 @@ import Driver.Util
     ops
     * `vol <hdrSize> <sniffLen> <exts 0|1> <fixedOff _|n> <footerSize> <member single|hdr|img>
            <extender0> <payload lens a,b|-> <padLen> <dataLen> <footerLen> <mmap 0|1> <comp 0|1>
-           <k> <m> <strict 0|1>`
+           <tail _|a> <k> <m> <strict 0|1>`   (`tail a`: partial read `dataobj[..., -1]` = data bytes from `a`)
     * `trk <nsc> <npr> <npts a,b|-> <count _|n> <orig 0|1> <k> <m> <strict>`
     * `tck <hex header lines a,b|-> <npts a,b|-> <k> <m> <strict>`
     * `xml <plainLen> <rootEnd> <k> <m> <strict>`
@@ -51,30 +51,38 @@ def outcome {α : Type} [DecidableEq α] (r : Except Err α) (want : α) : Strin
   | .ok v => if v = want then "E" else "D"
 
 def handle : List String → String
-  | ["vol", hs, sl, ex, fo, ft, member, e0, pl, padn, dn, fn, mm, cp, k, m, st] =>
+  | ["vol", hs, sl, ex, fo, ft, member, e0, pl, padn, dn, fn, mm, cp, tl, k, m, st] =>
       match hs.toNat?, sl.toNat?, parseBool? ex, parseOptNat? fo, ft.toNat?, e0.toNat?, parseNatList? pl,
-            padn.toNat?, dn.toNat?, fn.toNat?, parseBool? mm, parseBool? cp, k.toNat?, m.toNat?, parseBool? st with
+            padn.toNat?, dn.toNat?, fn.toNat?, parseBool? mm, parseBool? cp, parseOptNat? tl, k.toNat?, m.toNat?,
+            parseBool? st with
       | some hs, some sl, some ex, some fo, some ft, some e0, some pl, some padn, some dn, some fn, some mm,
-        some cp, some k, some m, some st =>
+        some cp, some tl, some k, some m, some st =>
           if hs < 16 then "bad-op" else
           let fmt : VolFmt := ⟨hs, sl, ex, fo, ft⟩
           let img : Img := { fill := synth 1 (hs - 16), extender := [e0, 0, 0, 0],
                              exts := pl.zipIdx.map (fun (n, i) => (6, synth (i + 2) n)),
                              pad := List.replicate padn 0, data := synth 5 dn, footer := synth 9 fn }
           let um := effMmap mm cp
+          let want := match tl with | none => img.data | some a => img.data.drop a
           if member = "single" then
             let file := writeSingle fmt img
-            outcome (load k (readSingle fmt um ⟨file.take m, st⟩)) img.data ++ " " ++ toString file.length
+            let s : Src := ⟨file.take m, st⟩
+            let r := match tl with | none => readSingle fmt um s | some a => readTailSingle fmt s a
+            outcome (load k r) want ++ " " ++ toString file.length
           else if member = "hdr" then
             let file := writeHdrFile fmt img
-            outcome (load k (readPair fmt um ⟨file.take m, st⟩ (Src.plain (writeImgFile img)))) img.data
-              ++ " " ++ toString file.length
+            let hs : Src := ⟨file.take m, st⟩
+            let is := Src.plain (writeImgFile img)
+            let r := match tl with | none => readPair fmt um hs is | some a => readTailPair fmt hs is a
+            outcome (load k r) want ++ " " ++ toString file.length
           else if member = "img" then
             let file := writeImgFile img
-            outcome (load k (readPair fmt um (Src.plain (writeHdrFile fmt img)) ⟨file.take m, st⟩)) img.data
-              ++ " " ++ toString file.length
+            let hs := Src.plain (writeHdrFile fmt img)
+            let is : Src := ⟨file.take m, st⟩
+            let r := match tl with | none => readPair fmt um hs is | some a => readTailPair fmt hs is a
+            outcome (load k r) want ++ " " ++ toString file.length
           else "bad-op"
-      | _, _, _, _, _, _, _, _, _, _, _, _, _, _, _ => "bad-op"
+      | _, _, _, _, _, _, _, _, _, _, _, _, _, _, _, _ => "bad-op"
   | ["trk", nsc, npr, npts, cnt, orig, _k, m, st] =>
       match nsc.toNat?, npr.toNat?, parseNatList? npts, parseOptNat? cnt, parseBool? orig, m.toNat?, parseBool? st with
       | some nsc, some npr, some npts, some cnt, some orig, some m, some st =>
